@@ -547,7 +547,8 @@ func (c *c5run) absentKey(tg *c5target) (Step, bool) {
 		case thrift.MAP:
 			if len(c.stale) > 0 && r.chance(50) {
 				s = c.stale[r.intn(len(c.stale))]
-				if (s.Kind == 3) != (tg.val.T.Key.K == thrift.STRING) {
+				// only keys of the map's own kind (an index step of an earlier LIST load is not a map key)
+				if (tg.val.T.Key.K == thrift.STRING && s.Kind != 3) || (tg.val.T.Key.K != thrift.STRING && s.Kind != 4) {
 					continue
 				}
 			} else if tg.val.T.Key.K == thrift.STRING {
